@@ -3,7 +3,7 @@ import os, sys
 sys.path.insert(0, os.path.dirname(__file__))
 import ltsgen as G
 
-def stall_case(rng, maxq, npk, gop_len, stall_from, resume_at):
+def stall_case(rng, maxq, npk, gop_len, stall_from, resume_at, gop=True, h265=False):
     """one fast consumer (0), one that stalls (1); key packet every gop_len packets"""
     pkts = []
     for i in range(npk):
@@ -15,7 +15,7 @@ def stall_case(rng, maxq, npk, gop_len, stall_from, resume_at):
         if not (stall_from <= i < resume_at):
             sched += [[G.CONS, 1]] * rng.choice([2, 2, 4])
     sched += [[G.CONS, 0], [G.CONS, 1]] * 4
-    return [G.FIXED, 2, maxq, True, pkts, [0, 0], sched, [0, 0], False]
+    return [G.FIXED, 2, maxq, gop, pkts, [0, 0], sched, [0, 0], False, 1, h265]
 
 def run(ck):
     if not ck.prepare():
@@ -27,7 +27,7 @@ def run(ck):
         npk = rng.randint(10, 60)
         g = rng.randint(1, 9)
         a = rng.randint(0, npk)
-        cases.append(stall_case(rng, maxq, npk, g, a, rng.randint(a, npk + 5)))
+        cases.append(stall_case(rng, maxq, npk, g, a, rng.randint(a, npk + 5), gop=rng.random() < 0.5, h265=rng.random() < 0.5))
     cases += [G.rand_case(rng, G.FIXED, maxq=rng.randint(1, 4), max_pkts=30, max_len=160, panic_p=0.3)
               for _ in range(50 if not ck.thorough else 800)]
     # the real limit of 1000: a few long scripts
